@@ -23,21 +23,20 @@ def evaluate(ctx, cases, label="cases", shards=12, timeout=3000):
         j = loads.index(min(loads))
         buckets[j].append(i)
         loads[j] += len(cases[i]["rows"]) * (1 + sum(len(b["rules"]) for b in cases[i]["engine"]["blocks"]))
-    paths = []
-    for j, b in enumerate(buckets):
-        p = ctx.work / f"{label}-{j}.json"
-        p.write_text(json.dumps([cases[i] for i in b]))
-        paths.append(p)
+    for i, c in enumerate(cases):
+        c["id"] = i
 
     def one(j):
-        return ctx.tlc("Gen_Engine", workers=1, env={"VERIF_CASES": str(paths[j])}, timeout=timeout, tag=f"{ctx.pid}-{label}{j}", heap="3g")
+        return ctx.tlc_cases("Gen_Engine", None, [cases[i] for i in buckets[j]], label=f"{label}{j}", workers=1, timeout=timeout,
+                             tag=f"{ctx.pid}-{label}{j}", heap="3g")
 
     with ThreadPoolExecutor(max_workers=shards) as ex:
         runs = list(ex.map(one, range(shards)))
     res = {}
-    for j, r in enumerate(runs):
-        if r.violated:
-            raise MachineryError(f"Gen_Engine: model invariant {r.violated} violated on shard {j} ({label})\n{r.trace[:2500]}")
-        for rec in r.emitted:
-            res[(buckets[j][rec["cid"] - 1], rec["k"])] = rec["obs"]
+    for j, rs in enumerate(runs):
+        for r in rs:
+            if r.violated:
+                raise MachineryError(f"Gen_Engine: model invariant {r.violated} violated on shard {j} ({label})\n{r.trace[:2500]}")
+            for rec in r.emitted:
+                res[(rec["cid"], rec["k"])] = rec["obs"]
     return res
